@@ -45,7 +45,7 @@ let tok_s = function TResp (i, k) -> Printf.sprintf "r%d.%d" (ni i) (ni k) | TCo
 let fl_s (f : flst) = match f.fpc with FlLoad -> "FlLoad" | FlGet -> "FlGet" | FlSend -> "FlSend" | FlSkip -> "FlSkip"
   | FlTotR -> "FlTotR" | FlTotW -> "FlTotW" | FlLen -> "FlLen" | FlPop -> "FlPop"
 let sc_s = function ScAcq -> "ScAcq" | ScApp -> "ScApp" | ScTotR -> "ScTotR" | ScTotW _ -> "ScTotW" | ScFl f -> "ScFl." ^ fl_s f
-  | ScRel -> "ScRel" | ScRelX -> "ScRelX"
+  | ScExcW -> "ScExcW" | ScRel -> "ScRel"
 let at_s = function AtAcq -> "AtAcq" | AtNotify -> "AtNotify" | AtRel -> "AtRel"
 let hc_s = function HcAcq -> "HcAcq" | HcBufs -> "HcBufs" | HcTot -> "HcTot" | HcConn -> "HcConn" | HcNotify -> "HcNotify"
   | HcRel -> "HcRel" | HcConn2 -> "HcConn2"
@@ -54,7 +54,7 @@ let iopc_s = function
   | IoWr3 -> "IoWr3" | IoSel -> "IoSel" | IoHrConn -> "IoHrConn" | IoRecv -> "IoRecv" | IoHrWConn -> "IoHrWConn"
   | IoRcAcq -> "IoRcAcq" | IoRcWc -> "IoRcWc" | IoRcCwf -> "IoRcCwf" | IoRcItem -> "IoRcItem" | IoRcChk -> "IoRcChk"
   | IoRcSc c -> "IoRcSc." ^ sc_s c | IoRcApp -> "IoRcApp" | IoRcApp2 -> "IoRcApp2" | IoRcLen -> "IoRcLen"
-  | IoRcAt a -> "IoRcAt." ^ at_s a | IoRcRel -> "IoRcRel" | IoRcRelX -> "IoRcRelX"
+  | IoRcAt a -> "IoRcAt." ^ at_s a | IoRcRel -> "IoRcRel"
   | IoHwConn -> "IoHwConn" | IoHwReq -> "IoHwReq" | IoHwFlU f -> "IoHwFlU." ^ fl_s f | IoHwTot -> "IoHwTot" | IoHwTotH -> "IoHwTotH"
   | IoHwTry -> "IoHwTry" | IoHwFlL f -> "IoHwFlL." ^ fl_s f | IoHwNTot -> "IoHwNTot" | IoHwNotify -> "IoHwNotify"
   | IoHwRel -> "IoHwRel" | IoHwRelX -> "IoHwRelX" | IoHwExcW -> "IoHwExcW" | IoHwCwf -> "IoHwCwf" | IoHwTot2 -> "IoHwTot2"
@@ -67,7 +67,7 @@ let wkpc_s = function
   | WWsFl f -> "WWsFl." ^ fl_s f | WWsExcW -> "WWsExcW" | WWsChk2 -> "WWsChk2" | WWsTrig -> "WWsTrig" | WWsRel -> "WWsRel"
   | WCbAcq -> "WCbAcq" | WCbCwf -> "WCbCwf" | WCbReq -> "WCbReq" | WCbClr -> "WCbClr" | WCbRel -> "WCbRel"
   | WKbLen -> "WKbLen" | WKbHw -> "WKbHw" | WKbAcq -> "WKbAcq" | WKbPop -> "WKbPop" | WKbConn -> "WKbConn" | WKbReq -> "WKbReq"
-  | WKbAt a -> "WKbAt." ^ at_s a | WKbConn2 -> "WKbConn2" | WKbSc c -> "WKbSc." ^ sc_s c | WKbRel -> "WKbRel" | WKbRelX -> "WKbRelX"
+  | WKbAt a -> "WKbAt." ^ at_s a | WKbConn2 -> "WKbConn2" | WKbSc c -> "WKbSc." ^ sc_s c | WKbRel -> "WKbRel"
   | WTlConn -> "WTlConn" | WTlTrig -> "WTlTrig"
 
 let state_s (p : params) (st : state) =
